@@ -862,6 +862,10 @@ class Universe:
             multi = isinstance(il, ind.MaterialIndexer) or isinstance(ir, ind.MaterialIndexer)
             before_rows, src_rows = dense(il), dense(ir)
             before_ph, src_ph = self.labels(il), self.labels(ir)
+            if not isinstance(il, ind.MaterialIndexer) and isinstance(ir, ind.MaterialIndexer):
+                # a single-phase receiver takes the SUM of the source's rows (entries that cancel carry nothing over)
+                src_rows = [[float(sum(Fraction(r[j]) for r in src_rows)) for j in range(len(src_rows[0]))]]
+                src_ph = src_ph[:1]
             casL, casR = self.sets[sl].real.CASs, self.sets[sr].real.CASs
             valid = all(casR[j] in casL for row in src_rows for j, x in enumerate(row) if x)
             try:
@@ -1096,6 +1100,7 @@ class Universe:
         if plan[0] == 'grp':
             comp = cs.group_comp(plan[1], basis)
             if comp is None: return None          # a second name of a group without a composition of its own
+            if scalar and data and any(c == 0 for c in comp): self.tags.add('group-scalar:zero-fraction')
             if scalar:
                 # member j (in the order of the user's definition) receives x * comp_j
                 where = self.members(cs, plan[1])
@@ -1179,8 +1184,11 @@ def dy(rng, zero=0.12):
     return rng.randrange(-64, 257) / (1 << rng.randrange(0, 4))
 
 
-GROUP_COMPS = {1: [[1]], 2: [[1, 1], [1, 3], [3, 1], [1, 7]], 3: [[1, 1, 2], [2, 1, 1], [1, 2, 5], [4, 3, 1]],
-               4: [[1, 1, 1, 1], [1, 2, 2, 3], [5, 1, 1, 1]]}
+# totals are powers of two (exact normalisation); about a third of the compositions have a member with fraction ZERO:
+# a scalar written to such a group must leave that member at 0, whatever it held before
+GROUP_COMPS = {1: [[1]], 2: [[1, 1], [1, 3], [3, 1], [1, 7], [1, 0], [0, 1], [0, 4]],
+               3: [[1, 1, 2], [2, 1, 1], [1, 2, 5], [4, 3, 1], [1, 0, 1], [0, 3, 1], [2, 0, 0]],
+               4: [[1, 1, 1, 1], [1, 2, 2, 3], [5, 1, 1, 1], [0, 2, 0, 2], [1, 0, 0, 3]]}
 SYN_ALIASES = ['foo', 'bar baz', 'qux', 'a,b', 'x(1)', 'H2O', 'C2H6O', 'water', 'size', 'Ethanol', 'l', 'g', 'q', 'Zed', 'n-1']
 
 
@@ -1448,6 +1456,16 @@ class Gen:
         ix = self.U.ixs[n][0]
         x = dy(rng, 0.05)
         m = 'm' if (rng.random() < 0.25 and not isinstance(ix, ind.SplitIndexer)) else ''
+        if rng.random() < 0.5 and not isinstance(ix, ind.SplitIndexer):
+            # every member holds material before the scalar arrives (a zero fraction must wipe it out)
+            mem = [self.U.sets[s].specs[p_][0] for p_ in (self.U.pos_of(self.U.sets[s], grp) or [])]
+            if mem:
+                tup = tuple(mem)
+                vals = [abs(dy(rng, 0.0)) + 1 for _ in mem]
+                key0 = (rng.choice(ix.phases), tup) if isinstance(ix, ind.MaterialIndexer) else tup
+                if not isinstance(ix, ind.MaterialIndexer): self.do(f'set {n} {show_key(key0)} {show_data(vals)}')
+                else:
+                    for p_ in ix.phases: self.do(f'set {n} {show_key((p_, tup))} {show_data(vals)}')
         if isinstance(ix, ind.MaterialIndexer):
             p = rng.choice(list(ix.phases) + ['*'])
             if p == '*' and rng.random() < 0.4: x = [[dy(rng, 0.05) for _ in (self.U.pos_of(self.U.sets[s], grp) or [])] for _ in ix.phases]
@@ -1895,6 +1913,12 @@ def corpus():
               'get 0 (l,Ethanol)', 'kcix 0 l (Ethanol,Water) v:2,1', 'get 3 Water', 'kmix 0 (l,(Water,Ethanol))=v:1,2|(g,(Methanol))=v:4',
               'get 4 (l,(Water,Ethanol))', 'ksix 0 (Methanol,Water) v:1/2,1/4', 'get 5 *', 'getindex 0 (Ethanol,Methanol,Water)',
               'getindex 0 [Water,Nope]', 'getindex 1 (Water,Ethanol)', 'getindex 0 Water', 'getindex 0 *'], {'kind': 'corpus-entry-points'}))
+    cases.append(
+        # 17. a group with a zero fraction: the scalar leaves that member at 0 although it held material
+        Case([W, 'group 0 Solvent Ethanol,Methanol 1,0', 'group 0 S2 Water,Methanol,Ethanol 0,3,1', 'cix 0', 'mix 0 lg', 'set 0 * v:1,2,4',
+              'set 0 Solvent s:8', 'get 0 *', 'get 0 Solvent', 'set 1 l v:1,2,4', 'set 1 (l,Solvent) s:8', 'get 1 l', 'set 1 g v:1,2,4',
+              'set 1 (*,S2) s:16', 'get 1 (*,*)', 'set 0 * v:1,2,4', 'setm 0 Solvent s:8', 'get 0 *', 'set 0 (Water,S2) v:3,16', 'get 0 *',
+              'six 0', 'set 2 * s:1/2', 'set 2 Solvent s:1/4', 'get 2 *'], {'kind': 'corpus-zero-fraction'}))
     if GEN_ALIASED_MASS_VALUE:
         cases.append(Case([W, 'cix 0', 'mix 0 lg', 'set 0 * v:1,2,4', 'setm 0 * r:0.0', 'get 0 *', 'set 1 l v:1,2,4', 'setm 1 l r:1.1', 'get 1 l',
                            'setm 1 (g,*) r:1.1', 'get 1 (*,*)'], {'kind': 'corpus-mass-alias'}))
